@@ -981,16 +981,19 @@ class Observer:
         self.spaces(prefix + "space", sp, m["space"])
         rep = self.step(prefix + "representation", lambda: lib.representation)
         checked = False
+        own = None   # (own dual space, model of projections(), magnitude) once projections() has been compared
         if rep == "dual":
             dd = self.env.sd(self.step(prefix + "dual_space", lambda: lib.dual_space))
             pr = self.step(prefix + "projections", lambda: np.asarray(lib.projections()))
             if m["proj"] is not None and dd.key == m["dual"].key:
                 self.cmp(prefix + "projections", pr, m["proj"], m["pmag"])
                 checked = True
+                own = (dd, m["proj"], m["pmag"])
             elif dd.n == m["space"].n and dd.grid == m["space"].grid:
                 Mm, Mi, ni, nm = self.env.mass(m["space"], dd)
                 self.cmp(prefix + "projections", pr, Mm @ m["c"], mag * nm)
                 checked = True
+                own = (dd, Mm @ m["c"], mag * nm)
         if not checked or self.rng.random() < 0.5:
             c = self.step(prefix + "coefficients", lambda: np.asarray(lib.coefficients))
             self.cmp(prefix + "coefficients", c, m["c"], mag)
@@ -1003,6 +1006,20 @@ class Observer:
                     Mm, Mi, ni, nm = self.env.mass(m["space"], dd)
                     pr = self.step(prefix + "projections_onto", lambda: np.asarray(lib.projections(dd.space)))
                     self.cmp(prefix + "projections_onto", pr, Mm @ m["c"], mag * nm)
+        if own is not None:
+            # queries are pure: a function given by its projections still answers projections() identically after it has been
+            # asked for its projections onto ANOTHER dual space (and for its coefficients)
+            others = [s for s in self.env.sp.values() if s.grid == m["space"].grid and s.n == m["space"].n and s.key != own[0].key
+                      and s.name not in ("ds1", "ds2") and m["space"].name not in ("ds1", "ds2")]
+            if others:
+                ee = others[int(self.rng.integers(len(others)))]
+                Mm, Mi, ni, nm = self.env.mass(m["space"], ee)
+                pr = self.step(prefix + "projections_onto_other", lambda: np.asarray(lib.projections(ee.space)))
+                self.cmp(prefix + "projections_onto_other", pr, Mm @ m["c"], mag * nm)
+                pr = self.step(prefix + "projections_after_query", lambda: np.asarray(lib.projections()))
+                self.cmp(prefix + "projections_after_query", pr, own[1], own[2])
+                pr = self.step(prefix + "projections_own_after_query", lambda: np.asarray(lib.projections(own[0].space)))
+                self.cmp(prefix + "projections_own_after_query", pr, own[1], own[2])
 
     def obs_gf(self):
         self.obs_gf_payload(self.v.lib, self.v.m, self.v.mag)
